@@ -292,8 +292,46 @@ def _classify_value(eng, fd, pl, bi, line, depth, payload=False):
                         callee=tgt, args=x['args'])
         if callee in PASS_THROUGH and x['args'] and x['args'][0]['k'] in ('copy', 'move'):
             return _classify_value(eng, fd, x['args'][0]['pl'], bi, line, depth + 1, payload and callee in ('std::ops::Try::branch', 'std::result::Result::<T, E>::map_err'))
-        # Option / Result combinators that decide Some-ness from their parts
         short = callee.split('::')[-1]
+        # quantified predicates over an iteration: besides the call itself (whose polarity the quantifier rules read), what the predicate tests
+        if callee in ('std::iter::Iterator::any', 'std::iter::Iterator::all', 'std::iter::Iterator::find', 'std::iter::Iterator::position') and len(x['args']) == 2 \
+                and x['args'][1]['k'] in ('copy', 'move') and not x['args'][1]['pl'].get('p') and depth < 10:
+            ci = fd._closure_info(x['args'][1]['pl']['l'])
+            cfd = eng.fndep(ci[0]) if ci is not None else None
+            if cfd is not None and cfd.body.local_ty(0) == 'bool':
+                per, _m = fd._arg_atoms_and_muts(x['args'])
+                whole = Gate('call', callee, list(per), body.path, bi, x.get('line', line), callee=callee, args=x['args'])
+                subs = [whole]
+                elem = fd.read_op(x['args'][0])
+                g0 = _classify_value(eng, cfd, {'l': 0}, bi, line, depth + 1)
+                stack = [g0]
+                while stack:
+                    g2 = stack.pop()
+                    if g2.kind == 'multi':
+                        stack.extend(g2.args or [])
+                        continue
+                    if g2.kind in ('match', 'opaque'):
+                        continue
+                    ops2 = []
+                    for o in g2.operands:
+                        oo = set()
+                        for a in o:
+                            st = strip(a)
+                            if st[0] == 'p' and st[1] == 1:
+                                k = st[2][0] if st[2] else None
+                                if k is not None and str(k).isdigit() and int(k) < len(ci[1]):
+                                    oo |= fd.read_op(ci[1][int(k)])
+                            elif st[0] == 'p':
+                                oo |= elem
+                            else:
+                                oo.add(a)
+                        ops2.append(oo)
+                    ng = Gate(g2.kind if g2.kind != 'deleg' else 'call', g2.what, ops2, g2.fn, bi, line, g2.callee, None, None, g2.const_ops)
+                    subs.append(ng)
+                g = Gate('multi', 'quantified:' + short, [whole.all_atoms()], body.path, bi, line)
+                g.args = subs
+                return g
+        # Option / Result combinators that decide Some-ness from their parts
         if callee.startswith(('std::option::Option', 'std::result::Result')) and short in ('zip', 'and', 'filter', 'is_some_and', 'is_ok_and', 'and_then', 'then_some') \
                 and x['args'] and x['args'][0]['k'] in ('copy', 'move') and depth < 10:
             subs = [_classify_value(eng, fd, x['args'][0]['pl'], bi, line, depth + 1)]
